@@ -920,6 +920,79 @@ fn run_headers(rep: &mut Report, model: &mut Model, rng: &mut Rng, n: u64) {
 
 // ---------------------------------------------------------------------------------------------
 
+
+/// FORMAT.md's own example of the file index ("The `offsets` for the file with ID 1 will be `Off0`, `Off2`,
+/// `Off3` and `Off5`") lists the offset of EVERY block of a file, also of a block that directly follows
+/// another block of the same file; the library's writer lists the first block of each continuous run.
+/// An independent implementation written from the document alone may write either.  Rewrite the index
+/// of a layer-less archive of the real writer in the document's style.
+fn every_block_offsets(bytes: &[u8]) -> Option<Vec<u8>> {
+    let u64at = |b: &[u8], p: usize| -> Option<u64> { Some(u64::from_le_bytes(b.get(p..p + 8)?.try_into().ok()?)) };
+    let hdr = 9usize;
+    if bytes.get(..3)? != b"MLA" || bytes.len() < hdr + 5 { return None; }
+    let mut p = hdr;
+    let mut per_id: BTreeMap<u64, Vec<u64>> = BTreeMap::new();
+    let mut names: BTreeMap<Vec<u8>, u64> = BTreeMap::new();
+    loop {
+        let t = *bytes.get(p)?;
+        let rel = (p - hdr) as u64;
+        match t {
+            0x00 => { let id = u64at(bytes, p + 1)?; let l = u64at(bytes, p + 9)? as usize; names.insert(bytes.get(p + 17..p + 17 + l)?.to_vec(), id); per_id.entry(id).or_default().push(rel); p += 17 + l; }
+            0x01 => { let id = u64at(bytes, p + 1)?; let l = u64at(bytes, p + 9)? as usize; per_id.entry(id).or_default().push(rel); p += 17 + l; }
+            0xff => { let id = u64at(bytes, p + 1)?; per_id.entry(id).or_default().push(rel); p += 41; }
+            0xfe => { p += 1; break; }
+            _ => return None,
+        }
+    }
+    let mut out = bytes[..p].to_vec();
+    let start = out.len();
+    let n = u64at(bytes, p)?; p += 8;
+    out.extend_from_slice(&n.to_le_bytes());
+    for _ in 0..n {
+        let l = u64at(bytes, p)? as usize; let name = bytes.get(p + 8..p + 8 + l)?.to_vec(); p += 8 + l;
+        let k = u64at(bytes, p)? as usize; p += 8 + 8 * k;
+        let size = u64at(bytes, p)?; let eof = u64at(bytes, p + 8)?; p += 16;
+        let offs = per_id.get(names.get(&name)?)?;
+        out.extend_from_slice(&(l as u64).to_le_bytes()); out.extend_from_slice(&name);
+        out.extend_from_slice(&(offs.len() as u64).to_le_bytes());
+        for o in offs { out.extend_from_slice(&o.to_le_bytes()); }
+        out.extend_from_slice(&size.to_le_bytes()); out.extend_from_slice(&eof.to_le_bytes());
+    }
+    if p + 4 != bytes.len() { return None; }
+    let flen = (out.len() - start) as u32;
+    out.extend_from_slice(&flen.to_le_bytes());
+    Some(out)
+}
+
+/// direction 2, the document's example: an index that lists every block is read like the library's own
+fn check_doc_offsets(rep: &mut Report, ops: &[Op]) -> bool {
+    let cfg = Cfg::plain();
+    let b = build(&cfg, ops);
+    let interleaved = ops.iter().filter(|o| matches!(o, Op::Start(_))).count() >= 2;
+    rep.eval(fnv(format!("doc-offsets:{:?}", ops.iter().map(|o| o.brief()).collect::<Vec<_>>()).as_bytes()), interleaved);
+    let Some(alt) = every_block_offsets(&b.bytes) else {
+        rep.violation("corr", "corr:C06/doc-offsets-rewrite", json!({}), "the harness cannot walk the block stream of a layer-less archive of the real writer", json!({"kind": "doc-offsets", "ops": ops.iter().map(|o| o.to_json()).collect::<Vec<_>>() }));
+        return false;
+    };
+    let own = read_all(&b.bytes, &cfg);
+    let doc = read_all(&alt, &cfg);
+    let same = match (&own, &doc) {
+        (Ok(a), Ok(d)) => a.len() == d.len() && a.iter().all(|(n, f)| d.get(n).map(|g| g.content == f.content && g.size == f.size && g.hash == f.hash).unwrap_or(false)),
+        _ => false,
+    };
+    if !same {
+        let which = match (&own, &doc) {
+            (Ok(a), Ok(d)) => a.iter().filter(|(n, f)| d.get(*n).map(|g| g.content != f.content).unwrap_or(true)).map(|(n, f)| format!("{n:?}: {} bytes from the library's own index, {} from the document-style index", f.content.as_ref().map(|c| c.len()).unwrap_or(0), d.get(n).and_then(|g| g.content.as_ref().ok().map(|c| c.len())).unwrap_or(0))).next().unwrap_or_default(),
+            (_, Err(e)) => format!("not opened: {e}"),
+            (Err(e), _) => format!("the library's own archive is not opened: {e}"),
+        };
+        rep.violation("oracle", "C06/doc-example-offsets", json!({"what": "every-block-offsets"}),
+            &format!("an archive whose file index lists the offset of every block of a file, as FORMAT.md's example does, is not read like the same archive with the library's own index ({which})"),
+            json!({"kind": "doc-offsets", "ops": ops.iter().map(|o| o.to_json()).collect::<Vec<_>>(), "archive": hx(&alt)}));
+    }
+    same
+}
+
 fn gen_case(rng: &mut Rng, layers: u8, big: bool) -> (Cfg, Vec<Op>) {
     let mut cfg = Cfg::make(rng, layers);
     cfg.level = *rng.pick(&[0u32, 5, 11]);
@@ -1007,6 +1080,10 @@ pub fn run(ctx: &Ctx) -> Report {
             }
             "sample" => { check_sample(&mut rep, &mut model, c["full"].as_bool().unwrap_or(true)); }
             "header" => { check_header(&mut rep, &mut model, &unhx(&c["raw"]), true); }
+            "doc-offsets" => {
+                let ops: Vec<Op> = c["ops"].as_array().unwrap().iter().map(Op::from_json).collect();
+                check_doc_offsets(&mut rep, &ops);
+            }
             _ => rep.notes.push("replay: unknown case kind".into()),
         }
         return rep;
@@ -1019,6 +1096,19 @@ pub fn run(ctx: &Ctx) -> Report {
     run_gcm(&mut rep, &mut model, &mut rng.fork(), ctx.budget(1000, 10000));
     // headers (malformed stream)
     run_headers(&mut rep, &mut model, &mut rng.fork(), ctx.budget(500, 4000));
+    // direction 2 for the document's own example of the file index (every block listed), then generated interleavings
+    {
+        let ex = vec![Op::Start("a".into()), Op::Start("b".into()), Op::Append { id: 0, size: 4, src: b"AAAA".to_vec() },
+            Op::Append { id: 0, size: 4, src: b"CCCC".to_vec() }, Op::Append { id: 1, size: 4, src: b"BBBB".to_vec() }, Op::End(0),
+            Op::Append { id: 1, size: 2, src: b"DD".to_vec() }, Op::End(1), Op::Finalize];
+        check_doc_offsets(&mut rep, &ex);
+        let mut rd = rng.fork();
+        for _ in 0..ctx.budget(40, 400) {
+            let o = GenOpts { max_files: 4, max_piece: 300, max_total: 4000, long_name_chance: (0, 40), flushes: false };
+            let ops = gen_valid_ops(&mut rd, &o);
+            check_doc_offsets(&mut rep, &ops);
+        }
+    }
     // direction 1
     let mut r1 = rng.fork();
     // fixed corner cases: the empty archive, one chunk exactly, for each layer combination
